@@ -463,7 +463,7 @@ def mesh_basis():
     @st.composite
     def build(draw):
         k = draw(st.integers(1, 2))
-        basis = [draw(gen.mesh_patterns(1, 3)) for _ in range(k)]
+        basis = [draw(gen.mesh_patterns(0 if draw(st.integers(0, 5)) == 0 else 1, 3)) for _ in range(k)]
         if draw(st.booleans()):
             basis.append(list(draw(gen.perms(2, 4))))
         return basis
